@@ -27,7 +27,7 @@ SUPPORTED = ["buf", "and", "or", "xor", "not", "nand", "nor", "xnor", "0", "1", 
 
 def bounds(tier):
     q = tier == "quick"
-    return {"depth": 3 if q else 4, "names": ["a", "b"] if q else ["a", "b", "c"], "seed_circuits": 7}
+    return {"depth": 3 if q else 4, "names": ["a", "b"] if q else ["a", "b", "c"], "seed_circuits": 8}
 
 
 def jobs(tier, seed):
@@ -141,6 +141,12 @@ def alphabet(names):
     for ch in ("f1", "f2", "f3", "f4"):
         ops.append(["fill_blackbox", "k", ch])
     ops.append(["fill_blackbox", "nok", "f1"])
+    # self-referential arguments: the circuit itself as the child, and an empty name
+    ops.append(["fill_blackbox", "k", "SELF"])
+    ops.append(["add_subcircuit", "SELF", "s", None])
+    ops.append(["add_subcircuit", "SELF", "s", {U[0]: U[1]}])
+    ops.append(["add", "", "buf", None, None, False])
+    ops.append(["add", "", "and", [U[0]], None, True])
     return ops
 
 
@@ -173,6 +179,9 @@ def seed_circuits():
          "bbs": [["k", "leaf", ["i"], ["o"], {}]]},
         {"name": "top", "nodes": [["a", "input", [], False], ["b", "and", [], True]],
          "bbs": [["k", "leaf", ["i"], ["o"], {}]]},
+        # the host's own interface matches the blackbox it holds (i -> o)
+        {"name": "top", "nodes": [["i", "input", [], False], ["o", "buf", [], True]],
+         "bbs": [["k", "leaf", ["i"], ["o"], {"i": "i", "o": "o"}]]},
     ]
     return descs
 
@@ -213,9 +222,9 @@ def do_op(c, op, kids):
             bb = cg.BlackBox("leaf", ["i"], ["o"])
         return c.add_blackbox(bb, op[1], dict(op[2]) if op[2] is not None else None)
     if k == "add_subcircuit":
-        return c.add_subcircuit(kids[op[1]], op[2], dict(op[3]) if op[3] is not None else None)
+        return c.add_subcircuit(c if op[1] == "SELF" else kids[op[1]], op[2], dict(op[3]) if op[3] is not None else None)
     if k == "fill_blackbox":
-        return c.fill_blackbox(op[1], kids[op[2]])
+        return c.fill_blackbox(op[1], c if op[2] == "SELF" else kids[op[2]])
     raise AssertionError(k)
 
 
@@ -268,7 +277,9 @@ class Model:
         self.ops = ops
 
     def menu(self, c, hist):
-        return self.ops
+        # the circuit itself as a child doubles the circuit: offered as the FIRST operation on every seed only
+        # (the search then continues from the state it leaves)
+        return [op for op in self.ops if "SELF" not in op[1:3]]
 
     def apply(self, c, op, hist):
         before_nodes = {n: dict(c.graph.nodes[n]) for n in c.graph.nodes}
@@ -288,6 +299,11 @@ class Model:
                 nhist = frozenset(set(hist) | gone)
         if op[0] == "fill_blackbox" and exc is None:
             nhist = frozenset(h for h in hist if h.split(".")[0] != op[1])
+            if op[2] == "SELF":
+                # the filling was the circuit itself: pins the caller had removed are missing in the spliced copy too
+                nhist = frozenset(set(nhist) | {f"{op[1]}_{h}" for h in hist})
+        if op[0] == "add_subcircuit" and exc is None and op[1] == "SELF":
+            nhist = frozenset(set(hist) | {f"{op[2]}_{h}" for h in hist})
         self._last = (before_nodes, before_edges, ret)
         return exc, nhist
 
